@@ -44,7 +44,8 @@ Step(ev) ==
 Matches(ev) ==
   LET e == obs'.exp o == ev.obs IN
   /\ "obs" \in DOMAIN ev
-  /\ e.vals = o.vals /\ e.lens = o.lens /\ e.typs = o.typs /\ e.irefs = o.irefs
+  /\ e.vals = o.vals /\ e.lens = o.lens /\ e.typs = o.typs
+  /\ Has(o, "irefs") => e.irefs = o.irefs
   /\ Has(o, "nlive") => (e.nlive = o.nlive /\ e.bad = o.bad /\ e.dead = o.dead /\ e.dup = o.dup /\ e.orph = o.orph)
   /\ e.ret = "any" \/ e.ret = o.ret
 
